@@ -6,6 +6,7 @@ import (
 	"math/big"
 	"math/rand"
 	"os"
+	"path/filepath"
 	"time"
 
 	"verif/harness/graph"
@@ -381,8 +382,68 @@ func C10(c *vk.Ctx) {
 		{Mode: "crl_only", Sig: "none", Strict: true, Fetch: "background", Disk: true, TrustA: false, Conf: "url", Ocsp: "noaia"},
 	}, c.Pick(300, 4000), func(d hubDoc) bool { return d.Signer == "A" || d.Q == "down" || d.Q == "garbage" }, RandomShape, predC10)
 	c.Add("traces_validated_against_impl", int64(c10Overlap(c)))
-	c.Set("spec", "Revocation.tla: StrictGate, LenientNeverDenies (action properties)")
+	c.Add("traces_validated_against_impl", int64(c10FailedSwap(c)))
+	c.Set("spec", "Revocation.tla: StrictGate, LenientNeverDenies (action properties); CrlRepo.tla LSwapFault (a first load that fails at its last step is a failed load)")
 	c.Set("rule", "as C01; predicates: strict AND certificate names distribution points AND accepted AND ghost says that CRL is not in force => violation; lenient AND denied AND not listed AND OCSP accepted => violation; CDP sets: http (c1), ldap-only (c3), none (c2)")
+}
+
+// c10FailedSwap: "after failed loads" includes a load that fails at its very last step, when the storage layer refuses to put the
+// parsed and verified list in place (CrlRepo.tla: LSwapFault). No CRL is in force then: strict denies, lenient does not deny for
+// that reason, and the next handshake loads the list after all. Injected fault on both backends; on disk also a real one (the
+// store directory is gone when the list is to be moved in).
+func c10FailedSwap(c *vk.Ctx) int {
+	n := 0
+	for _, disk := range []bool{false, true} {
+		for _, strict := range []bool{true, false} {
+			for _, real := range []bool{false, true} {
+				if real && (!disk || strict) || c.Violations() > 6 {
+					continue
+				}
+				rw, err := newRepoWorld(disk, "verify", strict, c.Seed*17+int64(n))
+				if err != nil {
+					c.Infra("repo world: %v", err)
+				}
+				rep := map[string]any{"backend": backendName(disk), "strict": strict, "fault": map[bool]string{true: "store directory removed before the swap", false: "injected swap error"}[real]}
+				sig := fmt.Sprintf("%s:strict=%v:fault=%s", backendName(disk), strict, map[bool]string{true: "dir-removed", false: "injected"}[real])
+				if real {
+					rw.serve("garbage", nil)
+					rw.w.HandshakeTimeout(rw.chains["driver"], 60*time.Second) // the entry and its directory exist now, nothing is loaded
+					ents, _ := os.ReadDir(rw.w.WorkDir)
+					for _, e := range ents {
+						if e.IsDir() {
+							os.RemoveAll(filepath.Join(rw.w.WorkDir, e.Name()))
+						}
+					}
+				} else {
+					rw.fault.mu.Lock()
+					rw.fault.failUpdate = true
+					rw.fault.mu.Unlock()
+				}
+				rw.serve("good", []string{"x"})
+				r1 := rw.w.HandshakeTimeout(rw.chains["driver"], 120*time.Second)
+				rep["handshake_during_failed_swap"] = r1
+				n++
+				c.Eval("failed-swap|" + sig)
+				switch {
+				case strict && r1.Verdict == "accept":
+					c.Violation("strict-accepts-although-the-load-failed-at-the-swap:"+sig, "crl_cdp_strict is on and the first load of the distribution point's CRL failed at its last step (nothing is in force), but the certificate that names it was accepted", rep)
+				case !strict && r1.Verdict != "accept":
+					c.Violation("lenient-denies-because-the-load-failed-at-the-swap:"+sig, fmt.Sprintf("crl_cdp_strict is off and the certificate is not listed anywhere, but it was denied after the first load failed at its last step: %s %s", r1.Verdict, r1.Err), rep)
+				}
+				if !real {
+					// the fault is gone: the next certificate that names the location gets the list loaded
+					r2 := rw.w.HandshakeTimeout(rw.chains["driver"], 120*time.Second)
+					res, _ := rw.probe(2 * time.Second)
+					rep["handshake_afterwards"], rep["lookups_afterwards"] = r2, res
+					if got, ok := listedOf(res); r2.Verdict != "accept" || !ok || got != "x" {
+						c.Violation("list-not-in-force-after-the-load-was-repeated:"+sig, fmt.Sprintf("after the failed swap the origin still serves the acceptable list {x} and the location was named again: handshake %s %s, lookups answer {%s} (ok=%v)", r2.Verdict, r2.Err, got, ok), rep)
+					}
+				}
+				rw.close()
+			}
+		}
+	}
+	return n
 }
 
 // C16 — signature policy uniform across intake paths.
